@@ -11,8 +11,8 @@ from vcore.obl import Obl, DISCHARGED, REFUTED, UNDECIDED, ERROR
 MOD = "pyab_experiment.data_structures.syntax_tree"
 # (class, field) -> kinds the grammar actions can put there, with the outcome the properties demand
 DEMANDS = {
-    ("TerminalPredicate", "left_term"): ["int", "int>2^53", "int>1e308", "float", "str-numeric", "str-plain", "list", "Identifier"],
-    ("TerminalPredicate", "right_term"): ["int", "int>2^53", "int>1e308", "float", "str-numeric", "str-plain", "list", "Identifier"],
+    ("TerminalPredicate", "left_term"): ["int", "int>2^53", "int>1e308", "float", "str-numeric", "str-plain", "list", "list-of-pairs", "Identifier"],
+    ("TerminalPredicate", "right_term"): ["int", "int>2^53", "int>1e308", "float", "str-numeric", "str-plain", "list", "list-of-pairs", "Identifier"],
     ("ExperimentGroup", "group_definition"): ["int", "int>2^53", "int>1e308", "float", "str-numeric", "str-plain"],
     ("ExperimentGroup", "group_weight"): ["int", "float"],
     ("Identifier", "name"): ["str-numeric", "str-plain"],
@@ -25,7 +25,32 @@ def enc(v):
     return v
 
 
+def _dsl(v):
+    from spec import dsl_ref
+    if isinstance(v, (list, tuple)):
+        return "(" + ", ".join(_dsl(x) for x in v) + ")"
+    return dsl_ref.lit(v)
+
+
 def model_replay(o):
+    # first: the exemplars of the refuted case as literals of a concrete program, through the whole pipeline
+    progs = []
+    for ex in (o.model or {}).get("exemplars", []):
+        if isinstance(ex, dict) and "__int__" in ex:
+            ex = int(ex["__int__"])
+        if isinstance(ex, str) and ex.startswith("<Identifier"):
+            continue
+        try:
+            lit = _dsl(ex)
+        except Exception:   # noqa
+            continue
+        progs.append('def replay { splitters: uid if x == %s { return "hit" weighted 1 } else if %s != y { return "hit2" weighted 1 } else { return "miss" weighted 1 } }' % (lit, lit))
+    if progs:
+        r0 = native.one({"cmd": "pipeline_diff", "count": 0, "seed": 11, "limit": 1, "programs": progs, "envs": 8})
+        f0 = next((v for k, v in r0["failures"].items() if v), None)
+        if f0:
+            return {"input": f0[0], "reproduced": True, "counter_kind": (o.model or {}),
+                    "note": "the exemplar values of the refuted case as literals of a concrete program: the real pipeline disagrees with the reference semantics"}
     r = native.one({"cmd": "pipeline_diff", "count": 150, "seed": 11, "limit": 1})
     f = r["failures"].get("ast") or r["failures"].get("literal") or r["failures"].get("routing")
     return {"input": f[0] if f else None, "reproduced": bool(f), "counter_kind": (o.model or {}),
@@ -48,7 +73,7 @@ def link_models(ctx, mutate=None, tag=""):
             if (cls, field) == ("ExperimentGroup", "group_weight"):
                 ok = pred[0] == "same" or (pred[0] == "coerced" and pred[1] == "float")   # weights are numbers: value matters, not type
                 text = "a weight literal of kind %s keeps its numeric value" % kind
-            elif kind == "list":
+            elif kind in ("list", "list-of-pairs"):
                 ok = pred[0] in ("same", "container")
                 text = "a tuple term keeps its items (value and type of each member)"
             else:
